@@ -225,10 +225,14 @@ def run_job(spec):
     def pre(e):
         U.pre(e)
         if mode == 'split':
-            for s_, m_ in zip(extra_vars['s'], U.ms):
+            mask = spec.get('splitmask')
+            for i_, (s_, m_) in enumerate(zip(extra_vars['s'], U.ms)):
                 if spec.get('nozero'):
-                    # every line and every part really exists in the file: the comparison statistics are exact
-                    e.assume(z3.And(m_ >= 2, s_ >= 1, s_ <= m_ - 1))
+                    # every line and every part really exists in the file (no zero-multiplicity artefacts)
+                    if mask is None or mask[i_]:
+                        e.assume(z3.And(m_ >= 2, s_ >= 1, s_ <= m_ - 1))
+                    else:
+                        e.assume(z3.And(m_ >= 1, s_ == 0))
                 else:
                     e.assume(z3.And(s_ >= 0, s_ <= m_))
         if mode == 'withdraw':
@@ -297,8 +301,10 @@ def run_job(spec):
             if mode == 'split':
                 EA = count(build_symbolic(base))
                 order = list(reversed(range(len(U.lines))))
-                linesB = [U.lines[i] for i in order] + list(U.lines)
-                multsB = [U.ms[i] - extra_vars['s'][i] for i in order] + list(extra_vars['s'])
+                mask = spec.get('splitmask') if spec.get('nozero') else None
+                second = [i for i in range(len(U.lines)) if mask is None or mask[i]]
+                linesB = [U.lines[i] for i in order] + [U.lines[i] for i in second]
+                multsB = [U.ms[i] - extra_vars['s'][i] for i in order] + [extra_vars['s'][i] for i in second]
                 dB = dict(base, lines=linesB, mults=multsB)
                 statsA = guarded_stats(EA)
                 EB = count(build_symbolic(dB))
@@ -566,7 +572,46 @@ def replay_pairs(items, mode):
     return dict(violated=violated, detail=out[:6])
 
 
+def run_batch(spec):
+    "several small explorations in one process (e.g. every support set of a few ballot lines)"
+    t0 = time.time()
+    tot = None
+    for sub in spec['batch']:
+        if time.time() - t0 > float(spec.get('budget_s', 600)):
+            tot['outcome'] = 'budget'
+            break
+        sp = dict(spec)
+        del sp['batch']
+        sp.update(sub)
+        sp['budget_s'] = max(5.0, float(spec.get('budget_s', 600)) - (time.time() - t0))
+        r = run_job(sp)
+        if tot is None:
+            tot = r
+            tot['spec'] = spec
+            continue
+        for k in ('violations', 'harness_errors'):
+            for it in r[k]:
+                if k == 'violations':
+                    it['key'] = it['key']
+                tot[k].append(it)
+        for k, v in r['reach'].items():
+            tot['reach'][k] = tot['reach'].get(k, 0) + v
+        for k, v in r['stats'].items():
+            tot['stats'][k] = tot['stats'].get(k, 0) + v
+        for k, v in (r.get('path_status') or {}).items():
+            tot['path_status'][k] = tot['path_status'].get(k, 0) + v
+        tot['validated'] += r['validated']
+        if r['outcome'] != 'complete' and tot['outcome'] == 'complete':
+            tot['outcome'] = r['outcome']
+        if len(tot['samples']) < 3:
+            tot['samples'] += r['samples'][:1]
+    tot['wall_s'] = round(time.time() - t0, 2)
+    tot['spec'] = {k: v for k, v in spec.items() if k != 'batch'}
+    tot['spec']['batch_size'] = len(spec['batch'])
+    return tot
+
+
 if __name__ == '__main__':
     spec = json.loads(sys.argv[1]) if len(sys.argv) > 1 else json.load(sys.stdin)
-    out = run_job(spec)
+    out = run_batch(spec) if 'batch' in spec else run_job(spec)
     sys.stdout.write('\n@@RESULT@@' + json.dumps(out) + '\n')
